@@ -116,7 +116,7 @@ def build_lib(variant="hooks", targets=("xerces-c",)):
             rc, out = run(cmd, timeout=3600, env=cc_env)
             if rc != 0:
                 raise InfraError("cmake configure failed:\n" + out[-3000:])
-        rc, out = run(["ninja", "-C", bdir] + list(targets), timeout=7200, env=cc_env)
+        rc, out = run(["ninja", "-C", bdir, "-j", os.environ.get("VERIF_BUILD_JOBS", "6")] + list(targets), timeout=7200, env=cc_env)
         if rc != 0:
             raise InfraError("build of /repo working tree failed (variant %s):\n%s" % (variant, out[-6000:]))
         log("library %s up to date (%.1fs)" % (variant, time.time() - t0))
